@@ -150,6 +150,15 @@ pub fn run_seed(seed: u64, tag: u64, run: u64) -> u64 {
     splitmix64(seed ^ splitmix64(tag) ^ splitmix64(run.wrapping_mul(0x9E37_79B9_7F4A_7C15)))
 }
 
+/// What a worker thread had executed (most recent last, at most 96 runs) before a run that failed,
+/// keyed by (stage, run): the crate under test may keep state across calls (a cache, a
+/// thread-local), and then a run's outcome is a function of that history, not of the run alone.
+pub static FAIL_HISTORY: Mutex<Vec<((u64, u64), Vec<u64>)>> = Mutex::new(Vec::new());
+
+pub fn fail_history(stage: u64, run: u64) -> Option<Vec<u64>> {
+    FAIL_HISTORY.lock().unwrap().iter().find(|(k, _)| *k == (stage, run)).map(|(_, h)| h.clone())
+}
+
 /// Execute runs 0..n in parallel. `body(run_index, &mut Stats)` returns the run's result; failing
 /// run indices are returned sorted, so the report does not depend on the worker count.
 pub fn run_batch<F>(n: u64, body: F) -> (Stats, Vec<(u64, Vec<Violation>)>)
@@ -165,6 +174,7 @@ where
             s.spawn(|| {
                 let mut st = Stats::default();
                 let mut local_fails = vec![];
+                let mut recent: std::collections::VecDeque<u64> = std::collections::VecDeque::new();
                 loop {
                     let base = next.fetch_add(64, Ordering::Relaxed);
                     if base >= n {
@@ -187,7 +197,14 @@ where
                             if local_fails.len() < 2000 {
                                 local_fails.push((run, r.violations));
                             }
+                            if local_fails.len() <= 40 {
+                                FAIL_HISTORY.lock().unwrap().push(((crate::watch::stage(), run), recent.iter().copied().collect()));
+                            }
                             st.inc("runs_with_violation");
+                        }
+                        recent.push_back(run);
+                        if recent.len() > 96 {
+                            recent.pop_front();
                         }
                     }
                 }
